@@ -91,4 +91,11 @@ def obligations(tier):
         obs.append(Ob('O5.4-compound-ulp', 'fn', 'harness.C05:fp_compound_traced', slices=[{'w': 10, 'mode': 'ulp'}], timeout=1200,
                       descr='the computed amount is never more than one ulp from the nearest double of the decimal amount', bounds='N < 2^10, M < 100',
                       engine='z3 floating-point (bit-blasted) query'))
+    obs.append(Ob('O5.5-wiring', 'fn', 'harness.C05w:audit_wiring', timeout=t,
+                  descr='audit (finite, exhaustive over the registry; not a solver verdict): every unit model registered for a culture builds its parser configuration and the number parser inside it for that culture '
+                        '(the symbolic obligations stub that inner parser, i.e. assume it is the culture\'s own); the English pair inside the Chinese models is English on purpose',
+                  bounds='34 (model type, culture, parser) triples incl. the regional culture es-mx', encodes=['recognizers_number_with_unit.number_with_unit.number_with_unit_recognizer:NumberWithUnitRecognizer.initialize_configuration']))
+    obs.append(Ob('O5.5-api-numerals', 'fn', 'harness.C05w:api_numerals', timeout=t,
+                  descr='composition through the public API (small-scope enumeration, not a solver verdict): numerals with decimal / grouping marks + a unit in 8 cultures incl. es-mx: whenever the number model reads the numeral as one number '
+                        'and the unit model returns one entity over the text, the unit value is the number model\'s value', bounds='about 200 texts'))
     return obs
